@@ -69,7 +69,7 @@ fn literal_near(r: &mut Rng, c: &ColDef) -> String {
         Some(v) => {
             let v = strip_some(&v);
             match &v {
-                Value::Integer(i) => (**i + r.range(-1, 1)).to_string(),
+                Value::Integer(i) => i.saturating_add(r.range(-1, 1)).to_string(),
                 Value::Float(f) => {
                     let x = **f + (r.range(-2, 2) as f64) / 2.0;
                     lit_of(&Value::float(x))
